@@ -145,6 +145,10 @@ input I @foo { "f" x: Int = 1 @foo y: E = A l: [Float] = 1 d: Date = "2020-01-01
                            '"nel\x85y"\nenum E { "v\u2028w" A }\n"""\nl1\nl2\u2028x\n"""\ninput I { "a\u2029b" f: Int }\n'
                            '"d\u2028e"\ndirective @d("q\x85r" x: Int) on FIELD')],
                      [[0, DEFAULT], [0, _opts(indent=2)]], "description-separators"))
+    # C12-07 (/repo 6320d32): a short one-line description ending with a backslash is laid out as a block
+    out.append(_case([_sdl('"t\\\\"\ntype Query {\n  "f\\\\"\n  a("x\\\\" b: Int): Int\n}\n"e\\\\"\nenum E { "v\\\\" A }\n'
+                           '"i\\\\"\ninput I { "g\\\\" f: Int }\n"d\\\\"\ndirective @d("q\\\\" x: Int) on FIELD')],
+                     [[0, DEFAULT], [0, _opts(indent=2)], [0, _opts(indent="\t")]], "description-trailing-backslash"))
     # seeded C12-d: enum defaults are printed as the member *holding* the internal value
     for k, mode in enumerate(gen_sdl.ENUM_VALUE_MODES):
         out.append(_enum_collision_case(_random.Random(2000 + k), mode=mode))
@@ -429,46 +433,6 @@ def _numeric_string_defaults(dump):
     return out
 
 
-KEY_BACKSLASH = "description-trailing-backslash"
-
-
-def _backslash_descs(dump):
-    """descriptions of exactly the class of the open finding: one line, shorter
-    than 70 characters, ending with a backslash (printed between triple quotes
-    on one line, where the lexer reads backslash + closing quotes as an escaped
-    triple quote)"""
-    found = []
-
-    def one(path, d):
-        if d and "\n" not in d and len(d) < 70 and d.endswith("\\"):
-            found.append(path)
-
-    def ivs(path, l):
-        for a in l:
-            one("%s(%s)" % (path, a["name"]), a["desc"])
-    for t in dump["types"]:
-        one(t["name"], t["desc"])
-        if t["kind"] in ("object", "interface"):
-            for f in t["fields"]:
-                one("%s.%s" % (t["name"], f["name"]), f["desc"])
-                ivs("%s.%s" % (t["name"], f["name"]), f["args"])
-        elif t["kind"] == "enum":
-            for v in t["values"]:
-                one("%s.%s" % (t["name"], v["name"]), v["desc"])
-        elif t["kind"] == "input":
-            ivs(t["name"], t["fields"])
-    for d in dump["directives"]:
-        one("@" + d["name"], d["desc"])
-        ivs("@" + d["name"], d["args"])
-    return found
-
-
-def _parse_key(case, obs):
-    if any(o["descriptions"] for _, o in case["steps"]) and any(_backslash_descs(d) for d in obs.get("dumps", [])):
-        return KEY_BACKSLASH
-    return None
-
-
 def _finding_key(case, obs):
     if any(_numeric_string_defaults(d) for d in obs.get("dumps", [])):
         return KEY_NUMERIC_STRING
@@ -487,12 +451,8 @@ _ROUNDTRIP_CHECKS = ("rebuilt-schema-identical", "rebuilt-defaults-identical", "
 def direct_checks(case, obs):
     out = []
     key = _finding_key(case, obs)
-    pkey = _parse_key(case, obs)
     for c in obs.get("checks", []):
-        if c.startswith("parses"):
-            out.append((c, pkey))
-        else:
-            out.append((c, key if c.startswith(_ROUNDTRIP_CHECKS) else None))
+        out.append((c, key if c.startswith(_ROUNDTRIP_CHECKS) else None))
     for st in obs["steps"]:
         if "text" not in st:
             out.append(("to_string-raises: %s" % st.get("type", st.get("exc")), None))
